@@ -248,3 +248,58 @@ def coalesce_spec_sweep(viol, maxlen=5):
                 if len(viol) > 10:
                     return n
     return n
+
+
+def parse_config_sweep(viol):
+    """_parse_config_data against its specification: every documented key, in kebab-case or snake_case, at the top level or
+    inside a [formatting] / [file-discovery] section, sets exactly its own FlowmarkConfig field to exactly the given value;
+    keys that are not set stay None; an unknown key sets nothing and is reported on stderr; all pairs of settings together"""
+    import contextlib
+    import io
+    from dataclasses import fields
+
+    from flowmark import config as C
+    values = {"width": 55, "semantic": True, "cleanups": False, "smartquotes": True, "ellipses": True, "list_spacing": "tight",
+              "include": ["*.txt"], "extend_include": ["*.mdx"], "exclude": ["x/"], "extend_exclude": ["y/"], "files_max_size": 7,
+              "respect_gitignore": False, "force_exclude": True}
+    names = [f.name for f in fields(C.FlowmarkConfig)]
+    n = 0
+
+    def run(data):
+        err = io.StringIO()
+        with contextlib.redirect_stderr(err):
+            cfg = C._parse_config_data(data)
+        return cfg, err.getvalue()
+
+    def expect(data_desc, cfg, want, err, unknown=()):
+        nonlocal n
+        n += 1
+        got = {k: getattr(cfg, k) for k in names}
+        full = {k: want.get(k) for k in names}
+        if got != full or any(u not in err for u in unknown) or (not unknown and err.strip()):
+            viol.append({"clause": "config_data_as_documented", "input": {"data": data_desc}, "got": {k: v for k, v in got.items() if v is not None},
+                         "want": {k: v for k, v in full.items() if v is not None}, "stderr": err[:200]})
+    if sorted(values) != sorted(names):
+        viol.append({"clause": "config_data_as_documented", "input": {"data": "field list"}, "got": names, "want": sorted(values)})
+        return 1
+    spell = lambda k, kebab: k.replace("_", "-") if kebab else k
+    for k, v in values.items():
+        for kebab in (False, True):
+            for section in (None, "formatting", "file-discovery", "other-section"):
+                data = {spell(k, kebab): v} if section is None else {section: {spell(k, kebab): v}}
+                cfg, err = run(data)
+                expect(data, cfg, {k: v}, err)
+    ks = list(values)
+    for a in ks:
+        for b in ks:
+            if a < b:
+                data = {"formatting": {spell(a, True): values[a]}, spell(b, False): values[b]}
+                cfg, err = run(data)
+                expect(data, cfg, {a: values[a], b: values[b]}, err)
+    for bad in ("widht", "list_spacing_", "Width", "tool"):
+        data = {bad: 1, "width": 60}
+        cfg, err = run(data)
+        expect(data, cfg, {"width": 60}, err, unknown=(bad,))
+    cfg, err = run({})
+    expect({}, cfg, {}, err)
+    return n
